@@ -41,7 +41,9 @@ class Str(Expression):
         value = out.var('value', self.value)
         end = out.var('end', POS + len(self.value))
 
-        with out.IF(TEXT[POS : end] == value):
+        # (Spell out the slice, so that the code does not depend on the builtin
+        # function "slice". A field or parameter may have that name.)
+        with out.IF(Code(TEXT, '[', POS, ':', end, ']') == value):
             out += RESULT << value
 
             if self.skip_ignored:
